@@ -66,6 +66,8 @@ func cliQuery(class string) string {
 	return "frobnicate widget"
 }
 
+var hostileNext = map[string]int{}
+
 var hostileArgv = []string{"-", "--", "-x", "--=", "a b", "'q'", "$(id)", "`id`", "*", "~", "..", "/etc/passwd", "ünï 🚀", "\xff\xfe", "\n", strings.Repeat("A", 5000), "%s%n", "{{.}}", "", "--help", "-h", "--version"}
 
 func cliRun(args []string) int {
@@ -165,7 +167,10 @@ func cliRun(args []string) int {
 				argv = append(argv, q)
 			}
 		} else {
-			pick := func() string { return hostileArgv[r.Intn(len(hostileArgv))] }
+			pick := func() string { // walk through the hostile values systematically, per sub-command
+				hostileNext[sc.Sub]++
+				return hostileArgv[(hostileNext[sc.Sub]-1)%len(hostileArgv)]
+			}
 			var pos []string
 			switch sc.Args {
 			case "one":
@@ -174,8 +179,13 @@ func cliRun(args []string) int {
 				pos = []string{"echo hello | wc -c", "Count the bytes of hello"}
 			case "many":
 				pos = []string{"frobnicate", "widget", "number"}
-			case "hostile":
-				for k := 1 + r.Intn(3); k > 0; k-- {
+			case "hostile": // the right number of arguments for the sub-command, with hostile values
+				n := map[string]int{"save": 2, "savep": 2, "setup": 1, "wizard": 1, "alias": 1, "history": 1, "help": 1, "completion": 1, "pipeline": 1}[sc.Sub]
+				if r.Intn(4) == 0 {
+					n = 1 + r.Intn(3)
+				}
+				pos = append(pos, "--")
+				for k := n; k > 0; k-- {
 					pos = append(pos, pick())
 				}
 			case "unknownflag":
